@@ -115,6 +115,7 @@ impl TulispObject {
     /// [here](https://www.gnu.org/software/emacs/manual/html_node/elisp/Equality-Predicates.html).
     pub fn eq(&self, other: &TulispObject) -> bool {
         self.eq_ptr(other)
+            || self.is_same_constant(other)
             || other.inner_ref().lex_symbol_eq(self)
             || self.inner_ref().lex_symbol_eq(other)
     }
@@ -125,10 +126,16 @@ impl TulispObject {
     /// Read more about Emacs `eql`
     /// [here](https://www.gnu.org/software/emacs/manual/html_node/elisp/Comparison-of-Numbers.html#index-eql)
     pub fn eql(&self, other: &TulispObject) -> bool {
-        if self.numberp() {
-            self.eq_val(other)
+        if self.integerp() {
+            other.integerp() && self.eq_val(other)
+        } else if self.floatp() {
+            // Floats are `eql` when they are indistinguishable: same bits.
+            match (self.as_float(), other.as_float()) {
+                (Ok(a), Ok(b)) => a.to_bits() == b.to_bits(),
+                _ => false,
+            }
         } else {
-            self.eq_ptr(other)
+            self.eq_ptr(other) || self.is_same_constant(other)
         }
     }
 
@@ -370,6 +377,14 @@ impl TulispObject {
 
     pub(crate) fn is_lexically_bound(&self) -> bool {
         self.rc.borrow().is_lexically_bound()
+    }
+
+    /// `nil` and `t` are unique values, however many objects represent them.
+    fn is_same_constant(&self, other: &TulispObject) -> bool {
+        matches!(
+            (&*self.inner_ref(), &*other.inner_ref()),
+            (TulispValue::Nil, TulispValue::Nil) | (TulispValue::T, TulispValue::T)
+        )
     }
 
     pub(crate) fn eq_ptr(&self, other: &TulispObject) -> bool {
